@@ -106,7 +106,9 @@ class E1Check(runner.Check):
         return out
 
     def arrays(self, T, b):
-        return values.arrays(T, b["N"], b["M"], b["K"], self.labeler)
+        # the number of shapes is a tower in the nesting depth: three list levels are enumerated with inner lengths <= 2
+        M = b["M"] if values.depth(T)[1] < 3 else min(b["M"], 2)
+        return values.arrays(T, b["N"], M, b["K"], self.labeler)
 
     def extra_states(self, tier):
         """-> list of groups; a group is a list of (T, tvs, [(layout description, encoding names), ...]) built by hand
@@ -218,6 +220,9 @@ class E1Check(runner.Check):
     def l3_signature(self, T, tvs, label):
         return {}
 
+    def l3_bounds(self, tier):
+        return (2, 2, 10) if tier == "quick" else (3, 2, 60)
+
     def l3_spec(self):
         """-> (table function (T, tvs, tier) -> [(label, run, expect)], list of types)"""
         import l3
@@ -228,14 +233,19 @@ class E1Check(runner.Check):
         ak = l3.ak()
         table, types = self.l3_spec()
         T = types[g]
-        N, M, cap = (2, 2, 10) if tier == "quick" else (3, 2, 60)
+        N, M, cap = self.l3_bounds(tier)
         vals = list(values.arrays(T, N, M, 6, self.labeler))
         if len(vals) > cap:
             vals = vals[:cap // 2] + vals[-(cap - cap // 2):]
-        for tvs in vals:
+        for vi, tvs in enumerate(vals):
             ops = table(T, tvs, tier)
             encl = list(encs.encodings(T, tvs, 1, False))
-            chosen = [encl[0]] + ([encl[1 + (len(tvs) % (len(encl) - 1))]] if len(encl) > 1 else [])
+            # canonical plus two alternatives that rotate through the whole list from value to value
+            chosen = [encl[0]]
+            if len(encl) > 1:
+                m = len(encl) - 1
+                for pick in sorted(set([1 + (vi % m), 1 + ((vi * 7 + m // 2) % m)])):
+                    chosen.append(encl[pick])
             arrays = []
             for d, names in chosen:
                 arrays.append((ak.Array(layouts.build(d)), d, names or ["canonical"]))
